@@ -6,15 +6,47 @@ import warnings
 
 warnings.simplefilter("ignore")
 
+CASE_TIMEOUT_S = 30          # no modelled operation on trees of the generated sizes takes more than milliseconds
+
+
+class CaseTimeout(BaseException):
+    """raised by the interval timer: the implementation did not return (an unbounded loop is an observable too)"""
+
+
+def _on_alarm(signum, frame):
+    raise CaseTimeout()
+
 
 def main():
     fin, fout = sys.argv[1], sys.argv[2]
+    import signal
+    try:
+        import resource
+        lim = 8 << 30            # an unbounded accumulation ends in MemoryError, not in the OOM killer
+        resource.setrlimit(resource.RLIMIT_AS, (lim, lim))
+    except Exception:  # noqa: BLE001
+        pass
+    signal.signal(signal.SIGALRM, _on_alarm)
     import families  # noqa: imports anytree
+    timeouts = 0
     with open(fin) as f, open(fout, "w") as g:
         for line in f:
             case = json.loads(line)
+            if timeouts >= 3:
+                # the implementation hangs again and again: the remaining cases are not worth minutes each
+                g.write(json.dumps({"exc": "Timeout", "where": "not run: three earlier cases did not return"}) + "\n")
+                continue
             try:
-                res = families.run_impl_case(case)
+                signal.setitimer(signal.ITIMER_REAL, CASE_TIMEOUT_S)
+                try:
+                    res = families.run_impl_case(case)
+                finally:
+                    signal.setitimer(signal.ITIMER_REAL, 0)
+            except CaseTimeout:
+                timeouts += 1
+                res = {"exc": "Timeout", "where": "implementation did not return within %d s" % CASE_TIMEOUT_S}
+            except MemoryError:
+                res = {"exc": "MemoryError", "where": "implementation"}
             except RecursionError:
                 res = {"exc": "RecursionError"}
             except Exception as e:  # an exception escaping a family runner is an observable too
